@@ -889,13 +889,13 @@ def _gen_pair_entry(rng, case_ctx, kind, li, ri, l, r, ports, gi, malformed):
         multi = kind == "direct" and ports is not None and len(ports) > 1
         if kind == "direct":
             if rng.random() < (0.96 if multi else 0.1):
-                e[side]["lag"] = 1 if rng.random() < 0.9 else 2
+                e[side]["lag"] = rng.choice([1, 1, 1, 1, 1, 1, 1, 2, 0])       # 0: a legal number that is falsy
                 if rng.random() < 0.3:
                     e[side]["lag_links_min"] = 1
             if rng.random() < 0.1:
-                e[side]["subif"] = 10 if rng.random() < 0.9 else 11
+                e[side]["subif"] = rng.choice([10, 10, 10, 10, 11, 0, 0])
             if rng.random() < (0.02 if "lag" in e[side] else 0.06) and "subif" not in e[side] or rng.random() < 0.01:
-                e[side]["svi"] = 100 if rng.random() < 0.9 else 101
+                e[side]["svi"] = rng.choice([100, 100, 100, 100, 101, 0])
         else:
             r0 = rng.random()
             if r0 < 0.6:
@@ -903,9 +903,9 @@ def _gen_pair_entry(rng, case_ctx, kind, li, ri, l, r, ports, gi, malformed):
             elif r0 < 0.75 and case_ctx.get("bad_ifname"):
                 e[side]["ifname"] = rng.choice(["nope", "", None, "e1", "Vlan100"])
             if rng.random() < 0.08:
-                e[side]["svi"] = 100
+                e[side]["svi"] = rng.choice([100, 100, 0])
             if rng.random() < 0.06:
-                e[side]["subif"] = 10
+                e[side]["subif"] = rng.choice([10, 10, 0])
     if malformed:
         r0 = rng.random()
         if r0 < 0.2:
